@@ -172,3 +172,39 @@ Proof. reflexivity. Qed.
 Theorem locked_writers_never_interleave (ws : list bytes) sched :
   emit_locked ws sched = concat (map (fun t => nth t ws []) sched).
 Proof. induction sched as [|t r IH]; cbn; auto. now rewrite IH. Qed.
+
+(* ---------- failed writes ---------- *)
+Lemma wire_clean ws : clean_failures ws -> wire ws = concat (map enc_line (reported_done ws)).
+Proof.
+  unfold wire, reported_done, clean_failures. induction ws as [|w r IH]; intros H; [reflexivity|].
+  inversion H as [|? ? Hw Hr]; subst. cbn [map concat filter]. rewrite (IH Hr).
+  unfold wire_of_write. destruct (w_done w) eqn:Hd; cbn [map concat]; [reflexivity|].
+  rewrite (Hw eq_refl). reflexivity.
+Qed.
+
+(* when failed writes leave nothing on the wire, the reader gets exactly the messages whose write
+   was reported as done, each once, intact, in the order written — however the bytes are chunked
+   and wherever the reader pauses *)
+Theorem done_writes_delivered chunks ws :
+  clean_failures ws -> Forall no_nl (map w_msg ws) -> concat chunks = wire ws ->
+  decode_stream bytes scan_line [] chunks = (reported_done ws, []).
+Proof.
+  intros Hc Hn Hw. apply line_stream_exactly_once.
+  - unfold reported_done. rewrite Forall_forall in *. intros m Hm.
+    apply in_map_iff in Hm as [w [<- Hin]]. apply filter_In in Hin as [Hin _].
+    apply Hn. apply in_map_iff. now exists w.
+  - now rewrite Hw, wire_clean.
+Qed.
+
+(* a write cut short by a deadline on a connection that stays in use: its debris is glued to the
+   front of the next message; the write that was reported as done is never delivered, and what is
+   delivered is something nobody wrote *)
+Theorem partial_write_then_continue_refuted :
+  let m1 := [123; 34; 97; 34; 58; 49; 125]%N in            (* {"a":1} *)
+  let m2 := [123; 34; 98; 34; 58; 50; 125]%N in            (* {"b":2} *)
+  let ws := [{| w_msg := m1; w_done := false; w_sent := 3 |}; {| w_msg := m2; w_done := true; w_sent := 0 |}] in
+  reported_done ws = [m2] /\
+  decode_stream bytes scan_line [] [wire ws] = ([[123; 34; 97] ++ m2]%N, []) /\
+  let ws' := [{| w_msg := m1; w_done := false; w_sent := 0 |}; {| w_msg := m2; w_done := true; w_sent := 0 |}] in
+  decode_stream bytes scan_line [] [wire ws'] = ([m2], []).
+Proof. vm_compute. auto. Qed.
